@@ -20,7 +20,36 @@ from .gpm import gp_expander, refs, mob, REL
 from ..report import AnalysisError
 
 FLOORS = {"lml-form": 2, "lml-gradient-form": 2, "factor-of": 2, "loo-form": 3, "loo-gradient-form": 2,
-          "slice-layout": 5, "bounds-passed": 2, "multistart": 1, "selector-wiring": 2}
+          "slice-layout": 7, "bounds-passed": 2, "multistart": 1, "selector-wiring": 2}
+
+
+def _scalar_broadcast(fn, grad_lists):
+    """`grad[slice] = X` where X resolves to `<expr built from array(grad_list)>.sum()` without an axis."""
+    src = {}
+    for st in ast.walk(fn):
+        if isinstance(st, ast.Assign) and len(st.targets) == 1 and isinstance(st.targets[0], ast.Name):
+            src.setdefault(st.targets[0].id, []).append(st.value)
+    out = []
+
+    def mentions(e, names, seen=frozenset()):
+        for n in ast.walk(e):
+            if isinstance(n, ast.Name):
+                if n.id in names:
+                    return True
+                if n.id in src and n.id not in seen and any(mentions(v, names, seen | {n.id}) for v in src[n.id]):
+                    return True
+        return False
+    for st in ast.walk(fn):
+        if isinstance(st, ast.Assign) and isinstance(st.targets[0], ast.Subscript) and ast.unparse(st.targets[0].value) == "grad":
+            cands = [st.value]
+            if isinstance(st.value, ast.Name) and len(src.get(st.value.id, [])) == 1:
+                cands = src[st.value.id]
+            for v in cands:
+                if isinstance(v, ast.Call) and isinstance(v.func, ast.Attribute) and v.func.attr == "sum" and not v.args \
+                        and not any(k.arg == "axis" for k in v.keywords) and mentions(v.func.value, set(grad_lists)):
+                    out.append(f"`{ast.unparse(st.targets[0])} = {ast.unparse(v)}`: a full reduction over the stacked gradients is a "
+                               f"single number, broadcast to every hyper-parameter of the group instead of one partial derivative each")
+    return out
 
 
 def loo_expander(prog, ci):
@@ -71,6 +100,11 @@ def run(prog, tier):
         obs.append(struct_ob("slice-layout", qual(c0, fn0) + "[order]", not pr, "; ".join(pr), REL, fn0.lineno))
         if pr:
             return obs, {}, {"explanation": "gradient list order violated; formula rules not evaluated"}
+        # one partial derivative per hyper-parameter: no full reduction over the stacked gradient list
+        sb = _scalar_broadcast(fn0, ("grad_mu", "grad_K"))
+        obs.append(struct_ob("slice-layout", qual(c0, fn0) + "[scatter-rank]", not sb, "; ".join(sb), REL, fn0.lineno))
+        if sb:
+            return obs, {}, {"explanation": "gradient scatter collapses the parameter axis; formula rules not evaluated"}
 
     # ---------------------------------------------------------------- LML value (two siblings)
     for mname in ("marginal_likelihood", "marginal_likelihood_gradient"):
